@@ -181,9 +181,9 @@ func checkC38(c *Ctx, r *Report) {
 		ws = append(ws, w.Fn.Name()+":"+w.Kind)
 		key := fmt.Sprintf("sessions %s in %s", w.Kind, w.Fn.Name())
 		switch {
-		case w.Fn.Name() == "newAuthManager" && w.Kind == "store":
+		case shortName(w.Fn) == "newAuthManager" && w.Kind == "store":
 			r.ok("C38.R2", key, m.Pos(w.In.Pos()), "construction")
-		case w.Fn.Name() == "handleLogin" && w.Kind == "mapupdate":
+		case shortName(w.Fn) == "handleLogin" && w.Kind == "mapupdate":
 			mu := w.In.(*ssa.MapUpdate)
 			g := Guard{cl(atomBool("validCredentials", vmCall(amPrefix+"validCredentials"), true)), cl(atomErrNil(pkgConsole + ".generateToken"))}
 			guardVerdict(m, r, "C38.R2", key+" only after valid credentials", w.Fn, w.In, g)
@@ -197,7 +197,7 @@ func checkC38(c *Ctx, r *Report) {
 			} else {
 				r.viol("C38.R2", "session expiry is now + ttl", m.Pos(w.In.Pos()), "expiry is "+describe(mu.Value))
 			}
-		case (w.Fn.Name() == "handleLogout" || w.Fn.Name() == "hasValidSession") && w.Kind == "delete":
+		case (shortName(w.Fn) == "handleLogout" || shortName(w.Fn) == "hasValidSession") && w.Kind == "delete":
 			r.ok("C38.R2", key, m.Pos(w.In.Pos()), "removal")
 		default:
 			r.viol("C38.R2", key, m.Pos(w.In.Pos()), "session map written outside login / logout / expiry")
